@@ -256,4 +256,8 @@ def ecall_table():
         import spec_ecalls
         for k, v in spec_ecalls.RARS.items():
             ECALLS[k] = (list(v[0]), list(v[1]))
+        # the floating-point calls (out of the analyzer's declared scope): what they write in the
+        # integer registers is executed, what they read there is not judged
+        for k, v in spec_ecalls.UNLISTED.items():
+            ECALLS[k] = ([], list(v[1]))
     return ECALLS
